@@ -72,7 +72,9 @@ def rows(ctx: Ctx):
                 if len(out) % 2:        # keyword arguments in another order (if the parameters still have these names)
                     try:
                         P = fn_(hash_function=R, DST=dst, message=msg)
-                    except TypeError:
+                    except TypeError as te:
+                        if "keyword" not in str(te):          # only another parameter NAME is not this check's business
+                            raise
                         R.g = []
                         del calls[:]
                         del us[:]
